@@ -23,6 +23,12 @@ pub fn preimage(k: usize) -> [u8; 32] {
 }
 
 pub fn hash_of(k: usize) -> sha256::Hash {
+    if k == MAX_HASHES - 1 {
+        // the last but one is h1 with its very last bit flipped: any key made of a prefix of the hash names both
+        let mut b = sha256::Hash::hash(&preimage(1)).to_byte_array();
+        b[31] ^= 1;
+        return sha256::Hash::from_byte_array(b);
+    }
     if k == MAX_HASHES {
         // the last hash of the catalogue is a "twin" of h1: other bytes, but the same text when every byte is
         // printed without zero padding (0a bc -> "abc" <- ab 0c).  Nobody knows a preimage of it.
@@ -119,6 +125,10 @@ pub struct InvSpec {
     /// distinguishes otherwise equal invoices (description text)
     #[serde(default)]
     pub variant: u8,
+    /// 0 = an invoice of long ago (as all the others); n > 0 = stamped at the start of the virtual clock and valid
+    /// for n seconds
+    #[serde(default)]
+    pub expiry: u64,
 }
 fn one() -> u8 {
     1
@@ -135,8 +145,11 @@ pub fn invoice_bytes(spec: &InvSpec) -> Vec<u8> {
         .description(format!("verif {}", spec.variant))
         .payment_hash(hash_of(k))
         .payment_secret(PaymentSecret([42u8; 32]))
-        .duration_since_epoch(std::time::Duration::from_secs(1_700_000_000))
+        .duration_since_epoch(std::time::Duration::from_secs(if spec.expiry > 0 { crate::clock::EPOCH_SECS } else { 1_700_000_000 }))
         .min_final_cltv_expiry_delta(18);
+    if spec.expiry > 0 {
+        b = b.expiry_time(std::time::Duration::from_secs(spec.expiry));
+    }
     if spec.amt != 0 {
         b = b.amount_milli_satoshis(spec.amt);
     }
@@ -166,6 +179,20 @@ pub fn invoice_bytes(spec: &InvSpec) -> Vec<u8> {
             let raw: RawBolt11Invoice = b.payee_pub_key(other).build_raw().unwrap();
             let signed = raw
                 .sign::<_, ()>(|h| Ok(secp.sign_ecdsa_recoverable(h, &signer)))
+                .unwrap();
+            signed.to_string()
+        }
+        "nfield" => {
+            // the payee is named explicitly (n field = the signer's key) and the signature carries the OTHER recovery id:
+            // it verifies against the named key, while key recovery yields some unrelated key
+            let raw: RawBolt11Invoice = b.payee_pub_key(payee_pub(spec.payee)).build_raw().unwrap();
+            let signed = raw
+                .sign::<_, ()>(|h| {
+                    let sig = secp.sign_ecdsa_recoverable(h, &signer);
+                    let (id, bytes) = sig.serialize_compact();
+                    let flipped = secp256k1::ecdsa::RecoveryId::from_i32(id.to_i32() ^ 1).unwrap();
+                    Ok(secp256k1::ecdsa::RecoverableSignature::from_compact(&bytes, flipped).unwrap())
+                })
                 .unwrap();
             signed.to_string()
         }
